@@ -342,10 +342,22 @@ impl Ranking {
             cx.ctx(format!("C07 lang={} recs={:?} limit={} q={:?}", lang, recs, limit, q));
             let base = st.search(&q);
             let all = unl.search(&q);
-            // pairwise
-            let k = all.len().min(6);
-            for i in 0..k {
-                for j in (i + 1)..k {
+            // pairwise: the first three hits plus up to three more positions anywhere in the unlimited list
+            let mut pos: Vec<usize> = (0..all.len().min(3)).collect();
+            for _ in 0..3 {
+                if all.len() > 3 {
+                    let p = cx.rng.range(3, all.len() - 1);
+                    if !pos.contains(&p) {
+                        pos.push(p);
+                    }
+                }
+            }
+            pos.sort();
+            if pos.iter().any(|p| *p >= 6) {
+                cx.count("pairs involving a hit ranked 7th or lower");
+            }
+            for (ai, &i) in pos.iter().enumerate() {
+                for &j in pos.iter().skip(ai + 1) {
                     let ri = recs.iter().find(|r| r.0 == all[i].0).unwrap().clone();
                     let rj = recs.iter().find(|r| r.0 == all[j].0).unwrap().clone();
                     for ord in 0..2 {
@@ -569,7 +581,7 @@ impl Ranking {
     fn empty(&self, cx: &mut Cx, lang: &'static str) {
         let words = ["metal", "mailbox", "b", "a", "aa", "ab", "Zed", "für", "élan", "Ёж", "éclair", "e\u{301}clair", "zz", "straße", "strasse"];
         let n = match cx.rng.below(60) {
-            0 => cx.rng.range(200, 600),
+            0 => *cx.rng.pick(&[200usize, 257, 300, 600, 1200]),
             1..=10 => cx.rng.range(13, 60),
             _ => cx.rng.below(13),
         };
@@ -578,8 +590,13 @@ impl Ranking {
             cx.count("stores of 13-60 records");
         }
         let distinct = cx.rng.chance(1, 3);
+        let long_prefix = cx.rng.chance(1, 6);
+        if long_prefix {
+            cx.count("stores whose titles share a prefix of 20-40 characters");
+        }
+        let common: String = if long_prefix { format!("{} ", gen::rand_word(&mut cx.rng, &gen::lower_alphabet(lang), 20, 40)) } else { String::new() };
         let mk = |rng: &mut Rng, i: usize| -> Rec {
-            let t = format!("{}{}{}", rng.pick(&words), if rng.chance(1, 2) { " " } else { "" }, if rng.chance(1, 2) { *rng.pick(&words) } else { "" });
+            let t = format!("{}{}{}{}", common, rng.pick(&words), if rng.chance(1, 2) { " " } else { "" }, if rng.chance(1, 2) { *rng.pick(&words) } else { "" });
             (i, t, (if distinct { i * 3 + rng.below(3) } else { rng.below(3) }) * rating_scale)
         };
         let mut recs: Vec<Rec> = (0..n).map(|i| mk(&mut cx.rng, i)).collect();
@@ -710,9 +727,9 @@ impl Prop for Ranking {
     fn floors(&self) -> Vec<(&'static str, u64, u64)> {
         match self.0 {
             Which::Verdicts => vec![("truncated (more matches than limit)", 200, 2000), ("beyond the 10x cap (soundness only)", 100, 1000), ("limit 0", 50, 500), ("selection buffer refilled (matches >= 2*limit)", 100, 1000), ("store with tied ratings (set comparison)", 50, 500), ("empty query", 50, 500), ("corpus-store searches", 100, 2000), ("corpus-store searches compared with the unlimited corpus store", 10, 200), ("large stores (limit 50-200)", 400, 8000), ("large stores whose match count is an exact multiple of the limit", 20, 400), ("stores of more than 2048 records", 8, 160)],
-            Which::Order => vec![("pair stores", 2000, 20000), ("permuted stores", 2000, 20000), ("searches with >= 2 hits", 300, 3000), ("truncated lists compared across permutations", 30, 300), ("stores of similar words", 500, 5000), ("large stores (limit 50-200)", 200, 4000), ("stores of more than 2048 records", 4, 80)],
+            Which::Order => vec![("pair stores", 2000, 20000), ("permuted stores", 2000, 20000), ("searches with >= 2 hits", 300, 3000), ("truncated lists compared across permutations", 30, 300), ("stores of similar words", 500, 5000), ("pairs involving a hit ranked 7th or lower", 300, 3000), ("large stores (limit 50-200)", 200, 4000), ("stores of more than 2048 records", 4, 80)],
             Which::Rules => vec![("rule exact>typo", 500, 5000), ("rule both>one", 500, 5000), ("rule prefix: exact>tail", 500, 5000), ("rule adjacent>gap", 500, 5000), ("rule first>second", 500, 5000), ("rule identical titles: rating decides", 300, 3000), ("rule equal rating: shorter title first", 300, 3000), ("rule function word: content word first", 1000, 10000), ("u made of two function words run together", 300, 3000)],
-            Which::Empty => vec![("searches after further adds", 1000, 10000), ("truncated lists with tied ratings", 500, 5000), ("stores with distinct ratings", 500, 5000), ("limit 0", 100, 1000), ("stores of 13-60 records", 1000, 10000)],
+            Which::Empty => vec![("searches after further adds", 1000, 10000), ("truncated lists with tied ratings", 500, 5000), ("stores with distinct ratings", 500, 5000), ("limit 0", 100, 1000), ("stores of 13-60 records", 1000, 10000), ("stores whose titles share a prefix of 20-40 characters", 1500, 15000)],
         }
     }
     fn ratios(&self) -> Vec<(&'static str, &'static str, f64, f64)> {
